@@ -175,8 +175,12 @@ static void randomCase(Rng &rng, CaseResult &r) {
     if (tc2 < td) r.fail("C13:increaseCapacity-insufficient", "capacity " + std::to_string(tc2) + " < demand " + std::to_string(td));
   }
   (void)mode;
-  pb.solve();
-  checkSolved(pb, dem, S <= 3 && K <= 3 && maxv <= 20, what, r);
+  try {
+    pb.solve();
+    checkSolved(pb, dem, S <= 3 && K <= 3 && maxv <= 20, what, r);
+  } catch (const std::exception &e) {
+    r.fail("C13:solver-threw-on-a-feasible-problem", std::string(e.what()) + ": " + what + " " + pbStr(pb.capacities(), dem, pb.costs()));
+  }
   r.nontrivial = S >= 2 && K >= 2;
   r.sig = what + "K" + std::to_string(K) + "S" + std::to_string(std::min(S / 4, 15)) + "c" + std::to_string(cmax <= 2 ? 0 : cmax <= 10 ? 1 : 2) + (td > tc ? "U" : td == tc ? "B" : "L") + (geometric ? "g" : "r");
 }
@@ -213,7 +217,12 @@ static void exhaustiveCase(uint64_t idx, CaseResult &r, int costValues) {
       for (int i = 0; i < S; ++i) { ci[k][i] = (int)(x % costValues); x /= costValues; }
     TransportationProblem pb(cap, dem, ci);
     if (td > tc) pb.increaseCapacity();
-    pb.solve();
+    try {
+      pb.solve();
+    } catch (const std::exception &e) {
+      r.fail("C13:solver-threw-on-a-feasible-problem", std::string(e.what()) + ": " + pbStr(pb.capacities(), dem, pb.costs()));
+      break;
+    }
     ++solved;
     if (!checkSolved(pb, dem, code % 7 == 0, td > tc ? "exhaustive+increaseCapacity" : "exhaustive", r)) break;
   }
